@@ -80,12 +80,79 @@ theorem stepThr_inv {s s' : Sys} {t : Nat} {th : Thr} (hi : Inv s) (ht : Tear s)
     · intro _; simp [HolderInv, Sys.upd]; exact hh
     · intro hl; exact absurd hown hl
   | idle =>
+    rw [hpc] at hown; simp [inLock] at hown
+    cases hsl : s.seqLocked with
+    | false =>
+      simp [stepThr, hpc, hsl] at h; subst h
+      refine inv_local hi hget rfl rfl rfl rfl rfl rfl ?_ rfl ?_ ?_
+      · simp [inLock, hpc]
+      · intro hl; exact absurd hl hown
+      · intro _; rfl
+    | true =>
+      -- the repaired source takes the lock first
+      cases hl : s.lock with
+      | some x => simp [stepThr, hpc, hsl, hl] at h
+      | none =>
+        simp [stepThr, hpc, hsl, hl] at h; subst h
+        have hf := hi.free hl
+        constructor
+        · intro t' b hb
+          rcases get_set_cases hget hb with ⟨rfl, rfl⟩ | ⟨hne, hb⟩
+          · simp [inLock, Sys.upd]
+          · have := hi.owner _ _ hb
+            rw [hl] at this
+            simp [Sys.upd, this]
+            exact fun h => hne h.symm
+        · intro t' hl'
+          simp [Sys.upd] at hl'
+          subst hl'
+          exact ⟨_, get_set_self hget⟩
+        · exact hi.exch
+        · exact hi.incr
+        · exact hi.after
+        · exact hi.ntx
+        · exact hi.q
+        · intro h; simp [Sys.upd] at h
+        · intro t' b hb hl'
+          simp [Sys.upd] at hl'
+          subst hl'
+          have hb' : (s.thr.set t { th with pc := PC.lkLoad })[t]? = some b := hb
+          rw [get_set_self hget] at hb'
+          injection hb' with hb'
+          subst hb'
+          simp [HolderInv, Sys.upd]
+          exact hf
+        · intro t' b hb r hr
+          rcases get_set_cases hget hb with ⟨rfl, rfl⟩ | ⟨hne, hb⟩
+          · exact hi.res _ _ hget r hr
+          · exact hi.res _ _ hb r hr
+  | lkLoad =>
     simp [stepThr, hpc] at h; subst h
     rw [hpc] at hown; simp [inLock] at hown
+    have hh := hi.holder t th hget hown
+    simp [HolderInv, hpc] at hh
     refine inv_local hi hget rfl rfl rfl rfl rfl rfl ?_ rfl ?_ ?_
     · simp [inLock, hpc]
-    · intro hl; exact absurd hl hown
-    · intro _; rfl
+    · intro _; simp [HolderInv, Sys.upd]; exact hh
+    · intro hl; exact absurd hown hl
+  | lkStore =>
+    simp [stepThr, hpc] at h; subst h
+    rw [hpc] at hown; simp [inLock] at hown
+    have hh := hi.holder t th hget hown
+    simp [HolderInv, hpc] at hh
+    refine inv_local hi hget rfl rfl rfl rfl rfl rfl ?_ rfl ?_ ?_
+    · simp [inLock, hpc]
+    · intro _; simp [HolderInv, Sys.upd]; exact hh
+    · intro hl; exact absurd hown hl
+  | lkHdr =>
+    simp [stepThr, hpc] at h; subst h
+    rw [hpc] at hown; simp [inLock] at hown
+    have hh := hi.holder t th hget hown
+    simp [HolderInv, hpc] at hh
+    refine inv_local hi hget rfl rfl rfl rfl rfl rfl ?_ rfl ?_ ?_
+    · simp [inLock, hpc]
+    · intro _; simp [HolderInv, Sys.upd]; exact hh
+    · intro hl; exact absurd hown hl
   | incStore =>
     simp [stepThr, hpc] at h; subst h
     rw [hpc] at hown; simp [inLock] at hown
